@@ -87,6 +87,7 @@ func (w *World) GenVC(fn *ssa.Function, ct *Contract, opts ...func(*Engine)) (re
 	}
 	// requires
 	pre := &frame{engine: e, fn: fn, vals: map[ssa.Value]Val{}, params: args, entry: st, ct: ct}
+	pre.setSig(fn)
 	for i, p := range fn.Params {
 		pre.vals[p] = args[i]
 	}
@@ -102,8 +103,73 @@ func (w *World) GenVC(fn *ssa.Function, ct *Contract, opts ...func(*Engine)) (re
 			e.assume(st, ctx.boolean(cl.Expr, cl.Text))
 		}
 	}
+	// interface-level contracts this method has to refine: their requires may be assumed, their ensures are owed
+	ifcs := w.ifaceContractsFor(fn)
+	var ifFrames []*frame
+	for _, ic := range ifcs {
+		pf := &frame{engine: e, fn: nil, vals: map[ssa.Value]Val{}, params: args, entry: st, ct: ic}
+		pf.setIfaceSig(ic.IfaceSig)
+		ifFrames = append(ifFrames, pf)
+		ctx := &evalCtx{e: e, f: pf, st: st, old: st, bound: map[string]EV{}, pkg: ic.TypesPkg}
+		e.bindLets(ctx)
+		for _, cl := range ic.Requires {
+			e.assume(st, ctx.boolean(cl.Expr, cl.Text))
+		}
+	}
+	// frame rule: with an assigns clause (its own or that of an interface contract it refines) every write must hit
+	// a fresh object or a listed target
+	{
+		type target struct {
+			ref  *smt.Term
+			kind string
+		}
+		var allowed []target
+		has := false
+		collect := func(c2 *Contract, fr2 *frame, pkg *types.Package) {
+			if c2 == nil || !c2.HasAssigns {
+				return
+			}
+			has = true
+			ctx := &evalCtx{e: e, f: fr2, st: st, old: st, bound: map[string]EV{}, pkg: pkg}
+			e.bindLets(ctx)
+			for _, a := range c2.Assigns {
+				for _, t := range e.assignTargets(ctx, a) {
+					allowed = append(allowed, target{t.ref, t.kind})
+				}
+			}
+		}
+		collect(ct, pre, typesPkgOf(fn))
+		if !has {
+			for k, ic := range ifcs {
+				collect(ic, ifFrames[k], ic.TypesPkg)
+			}
+		}
+		if has {
+			alloc0 := st.Alloc
+			e.topFrameRule = func(e *Engine, st *State, ref *smt.Term, kind string, pos string) {
+				ok := []*smt.Term{e.C.Op(">=", smt.Bool, ref, alloc0)}
+				for _, t := range allowed {
+					if t.kind == kind {
+						ok = append(ok, e.C.Eq(ref, t.ref))
+					}
+				}
+				e.oblige(st, "frame", "", e.C.Or(ok...), pos, "write to "+kind+" is to a fresh object or to a target listed in assigns")
+			}
+		}
+	}
 	entryAssumes := len(e.Assumes)
 	rets, exit, fr := e.execFuncTop(fn, args, binds, st, ct)
+	for k, ic := range ifcs {
+		pf := ifFrames[k]
+		pf.entry = fr.entry
+		ctx := &evalCtx{e: e, f: pf, st: exit, old: fr.entry, results: rets, bound: map[string]EV{}, pkg: ic.TypesPkg}
+		e.bindLets(ctx)
+		for i, cl := range ic.Ensures {
+			t := ctx.boolean(cl.Expr, cl.Text)
+			o := e.oblige(exit, "post", "iface."+shortKey(ic.Key)+"."+clauseLabel(cl, i), t, fmt.Sprintf("%s:%d", strings.TrimPrefix(ic.File, "/repo/"), cl.Line), "refines interface contract "+ic.Key+": "+cl.Text)
+			o.Inputs = append(append([]NamedTerm{}, res.Params...), resultTerms(rets)...)
+		}
+	}
 	// cover: the precondition (and every assumption made along the way) is satisfiable
 	e.Obls = append(e.Obls, &Obligation{Name: key + ":cover:requires", Class: "cover", Cond: e.C.False(), NAssume: entryAssumes, ExpectSat: true,
 		Detail: "precondition is satisfiable"})
@@ -112,8 +178,32 @@ func (w *World) GenVC(fn *ssa.Function, ct *Contract, opts ...func(*Engine)) (re
 		e.bindLets(ctx)
 		for i, cl := range ct.Ensures {
 			t := ctx.boolean(cl.Expr, cl.Text)
-			o := e.oblige(exit, "post", clauseLabel(cl, i), t, fmt.Sprintf("%s:%d", strings.TrimPrefix(ct.File, "/repo/"), cl.Line), "ensures "+cl.Text)
-			o.Inputs = append(append([]NamedTerm{}, res.Params...), resultTerms(rets)...)
+			// A ==> (B && C) is checked as A ==> B and A ==> C: smaller queries, same meaning
+			parts := splitConj(e.C, t)
+			for k, pt := range parts {
+				label := clauseLabel(cl, i)
+				if len(parts) > 1 {
+					label = fmt.Sprintf("%s.%d", label, k+1)
+				}
+				o := e.oblige(exit, "post", label, pt, fmt.Sprintf("%s:%d", strings.TrimPrefix(ct.File, "/repo/"), cl.Line), "ensures "+cl.Text)
+				o.Inputs = append(append([]NamedTerm{}, res.Params...), resultTerms(rets)...)
+			}
+		}
+		if ct.HasAssigns {
+			pctx := &evalCtx{e: e, f: pre, st: fr.entry, old: fr.entry, bound: map[string]EV{}, pkg: typesPkgOf(fn)}
+			e.bindLets(pctx)
+			for _, a := range ct.Assigns {
+				call, ok := a.Expr.(*ECall)
+				if !ok {
+					continue
+				}
+				if id, ok := call.Fn.(*EIdent); !ok || id.Name != "wstream" {
+					continue
+				}
+				key := streamKey(pctx.eval(call.Args[0]).V)
+				cond := e.appendOnly(e.ghostGet(fr.entry, gCount, key), e.ghostGet(fr.entry, gWData, key), e.ghostGet(exit, gCount, key), e.ghostGet(exit, gWData, key))
+				e.oblige(exit, "post", "appendonly."+exprText(call.Args[0]), cond, "", "writer "+exprText(call.Args[0])+" is only appended to: earlier bytes are unchanged")
+			}
 		}
 		for i, cl := range ct.Cases {
 			t := ctx.boolean(cl.Expr, cl.Text)
@@ -161,22 +251,39 @@ func (e *Engine) execFuncTop(fn *ssa.Function, args, binds []Val, st *State, ct 
 
 // applyContract is the modular call rule: assert requires, havoc what may be assigned, assume ensures.
 func (e *Engine) applyContract(f *frame, st *State, ct *Contract, fn *ssa.Function, sig *types.Signature, args []Val, rt types.Type, pos string, key string) Val {
-	if fn == nil {
-		panic(reject("interface-level contracts need a representative function: " + key))
-	}
 	pre := st.clone()
 	pf := &frame{engine: e, fn: fn, vals: map[ssa.Value]Val{}, params: args, entry: pre, ct: ct, parent: nil}
-	for i, p := range fn.Params {
-		if i < len(args) {
-			v := args[i]
-			v.Typ = p.Type()
-			pf.vals[p] = v
-			pf.params[i] = v
+	var pkg *types.Package
+	if fn != nil {
+		pf.setSig(fn)
+		pkg = typesPkgOf(fn)
+		for i, p := range fn.Params {
+			if i < len(args) {
+				v := args[i]
+				v.Typ = p.Type()
+				pf.vals[p] = v
+				pf.params[i] = v
+			}
+		}
+	} else {
+		pf.setIfaceSig(sig)
+		pkg = ct.TypesPkg
+	}
+	ctx := &evalCtx{e: e, f: pf, st: pre, old: pre, bound: map[string]EV{}, pkg: pkg}
+	e.bindLets(ctx)
+	if fn != nil {
+		e.checkDefaultPre(st, fn, ct, args, key, pos)
+	} else {
+		// interface method: arguments of pointer / interface type must be non-nil unless declared nilable
+		for i := 0; i < sig.Params().Len(); i++ {
+			pt := sig.Params().At(i)
+			if defaultNonNil(pt.Type()) && !ct.Nilable[pt.Name()] {
+				a := args[i+1]
+				e.oblige(st, "pre", fmt.Sprintf("%s.nonnil.%s@%s", shortKey(key), pt.Name(), callOrd(e, key+"#"+pt.Name())), e.C.Not(e.C.Eq(a.Terms[0], e.C.IntLit(0))), pos,
+					"argument "+pt.Name()+" of "+key+" must be non-nil (default precondition)")
+			}
 		}
 	}
-	ctx := &evalCtx{e: e, f: pf, st: pre, old: pre, bound: map[string]EV{}, pkg: typesPkgOf(fn)}
-	e.bindLets(ctx)
-	e.checkDefaultPre(st, fn, ct, args, key, pos)
 	for i, cl := range ct.Requires {
 		e.oblige(st, "pre", fmt.Sprintf("%s.%s@%s", shortKey(key), clauseLabel(cl, i), callOrd(e, key)), ctx.boolean(cl.Expr, cl.Text), pos, "precondition of "+key+": "+cl.Text)
 	}
@@ -189,17 +296,37 @@ func (e *Engine) applyContract(f *frame, st *State, ct *Contract, fn *ssa.Functi
 		na := e.C.Fresh("alloc", smt.Int)
 		e.assume(st, e.C.Op(">=", smt.Bool, na, st.Alloc))
 		st.Alloc = na
-	} else {
+	} else if fn != nil {
 		ms := e.W.modSet(fn)
+		e.frameCheckModSet(f, st, ms, key, pos)
+		e.havocFamilies(st, ms.list())
+	} else {
+		ms := e.W.invokeModSetByName(ct.IfaceType, ct.IfaceMethod)
 		e.frameCheckModSet(f, st, ms, key, pos)
 		e.havocFamilies(st, ms.list())
 	}
 	var rets []Val
 	res := sig.Results()
-	for i := 0; i < res.Len(); i++ {
-		rets = append(rets, e.havocResult(st, fn.Name()+".r", res.At(i).Type()))
+	if ct.Pure && fn != nil {
+		// deterministic, effect-free function: its result is a function of its (scalar) arguments
+		var as []*smt.Term
+		for _, a := range args {
+			as = append(as, a.Terms...)
+		}
+		for i := 0; i < res.Len(); i++ {
+			sorts := e.comps(res.At(i).Type())
+			v := Val{Typ: res.At(i).Type()}
+			for k, so := range sorts {
+				v.Terms = append(v.Terms, e.C.App(fmt.Sprintf("fn.%s.%d.%d", key, i, k), so, as...))
+			}
+			rets = append(rets, v)
+		}
+	} else {
+		for i := 0; i < res.Len(); i++ {
+			rets = append(rets, e.havocResult(st, shortKey(key)+".r", res.At(i).Type()))
+		}
 	}
-	post := &evalCtx{e: e, f: pf, st: st, old: pre, results: rets, bound: ctx.bound, pkg: typesPkgOf(fn)}
+	post := &evalCtx{e: e, f: pf, st: st, old: pre, results: rets, bound: ctx.bound, pkg: pkg}
 	for _, cl := range ct.Ensures {
 		e.assume(st, post.boolean(cl.Expr, cl.Text))
 	}
@@ -218,18 +345,72 @@ func callOrd(e *Engine, key string) string {
 	return fmt.Sprintf("%d", e.classCount["call:"+key])
 }
 
+type assignTarget struct {
+	ref  *smt.Term
+	kind string
+}
+
+// assignTargets lists the (object reference, kind) pairs an assigns target denotes.
+func (e *Engine) assignTargets(ctx *evalCtx, a *Clause) []assignTarget {
+	if call, ok := a.Expr.(*ECall); ok {
+		if id, ok := call.Fn.(*EIdent); ok && (id.Name == "wstream" || id.Name == "rstream") {
+			v := ctx.eval(call.Args[0])
+			return []assignTarget{{streamKey(v.V), id.Name}}
+		}
+	}
+	if un, ok := a.Expr.(*EUn); ok && un.Op == "*" {
+		p := ctx.eval(un.X).V
+		el := types.Unalias(p.Typ).Underlying().(*types.Pointer).Elem()
+		if ae, isArr := arrayElem(el); isArr {
+			return []assignTarget{{p.Terms[0], "elem:" + typeStr(ae)}}
+		}
+		return []assignTarget{{p.Terms[0], "cell:" + typeStr(el)}}
+	}
+	if sel, ok := a.Expr.(*ESel); ok {
+		base := ctx.eval(sel.X).V
+		if pt, isPtr := types.Unalias(base.Typ).Underlying().(*types.Pointer); isPtr {
+			return []assignTarget{{base.Terms[0], "cell:" + typeStr(pt.Elem())}}
+		}
+	}
+	v := ctx.eval(a.Expr).V
+	switch u := types.Unalias(v.Typ).Underlying().(type) {
+	case *types.Slice:
+		return []assignTarget{{v.Terms[0], "elem:" + typeStr(u.Elem())}}
+	case *types.Map:
+		return []assignTarget{{v.Terms[0], "map"}}
+	}
+	panic(fmt.Errorf("contract expression: unsupported assigns target %s", a.Text))
+}
+
+// appendOnly: count does not shrink and every byte below the old count is unchanged.
+func (e *Engine) appendOnly(oldCnt, oldW, newCnt, newW *smt.Term) *smt.Term {
+	c := e.C
+	i := c.BoundVar("i", smt.BV(64))
+	keep := c.ForallPat([]*smt.Term{i}, c.Implies(c.And(bvle(c, c.BVLit64(0, 64), i), c.Op("bvslt", smt.Bool, i, oldCnt)), c.Eq(c.Select(newW, i), c.Select(oldW, i))), c.Select(newW, i))
+	return c.And(bvle(c, oldCnt, newCnt), keep)
+}
+
 // havocTarget forgets the contents of one assigns target (evaluated in the pre-state).
 func (e *Engine) havocTarget(f *frame, st *State, ctx *evalCtx, a *Clause, pos string) {
 	c := e.C
-	// stream(x): ghost state of a reader / writer
+	// wstream(w) / rstream(r): ghost state of a writer / reader
 	if call, ok := a.Expr.(*ECall); ok {
-		if id, ok := call.Fn.(*EIdent); ok && id.Name == "stream" {
+		if id, ok := call.Fn.(*EIdent); ok && (id.Name == "wstream" || id.Name == "rstream") {
 			v := ctx.eval(call.Args[0])
 			key := streamKey(v.V)
-			for _, g := range []string{gCount, gPos} {
-				e.ghostSet(st, g, key, c.Fresh("havoc."+g, smt.BV(64)))
+			e.frameCheckRef(f, st, key, id.Name, pos)
+			if id.Name == "wstream" {
+				// writers are append-only: the bytes written before the call are still there afterwards
+				oldCnt := e.ghostGet(st, gCount, key)
+				oldW := e.ghostGet(st, gWData, key)
+				newCnt := c.Fresh("havoc.count", smt.BV(64))
+				newW := c.Fresh("havoc.wdata", bytesInner)
+				e.ghostSet(st, gCount, key, newCnt)
+				e.ghostSet(st, gWData, key, newW)
+				e.assume(st, e.appendOnly(oldCnt, oldW, newCnt, newW))
+			} else {
+				e.ghostSet(st, gPos, key, c.Fresh("havoc.pos", smt.BV(64)))
 			}
-			e.ghostSet(st, gWData, key, c.Fresh("havoc.wdata", bytesInner))
 			return
 		}
 	}
@@ -347,6 +528,7 @@ func (e *Engine) checkDefaultPre(st *State, fn *ssa.Function, ct *Contract, args
 	}
 	for i, cl := range e.W.invsFor(fn) {
 		pf := &frame{engine: e, fn: fn, vals: map[ssa.Value]Val{}, params: args, entry: st}
+		pf.setSig(fn)
 		ctx := &evalCtx{e: e, f: pf, st: st, old: st, bound: map[string]EV{"self": {V: args[0]}}, pkg: typesPkgOf(fn)}
 		e.oblige(st, "pre", fmt.Sprintf("%s.inv.%s@%s", shortKey(key), clauseLabel(cl, i), callOrd(e, key+"#inv")), ctx.boolean(cl.Expr, cl.Text), pos,
 			"type invariant of the receiver of "+key+": "+cl.Text)
@@ -361,4 +543,46 @@ func (w *World) ListFuncs() []string {
 	}
 	sort.Strings(out)
 	return out
+}
+
+// ifaceContractsFor lists the interface-level contracts that method fn must refine.
+func (w *World) ifaceContractsFor(fn *ssa.Function) []*Contract {
+	recv := fn.Signature.Recv()
+	if recv == nil {
+		return nil
+	}
+	var out []*Contract
+	for _, ic := range w.Contracts {
+		if ic.IfaceType == nil || ic.IfaceMethod != fn.Name() {
+			continue
+		}
+		it := types.Unalias(ic.IfaceType).Underlying().(*types.Interface)
+		if types.Implements(recv.Type(), it) {
+			out = append(out, ic)
+		}
+	}
+	sort.Slice(out, func(i, j int) bool { return out[i].Key < out[j].Key })
+	return out
+}
+
+// splitConj splits (and a b ..) and (=> p (and a b ..)) into their conjuncts.
+func splitConj(c *smt.Ctx, t *smt.Term) []*smt.Term {
+	if t.Op == "and" {
+		var out []*smt.Term
+		for _, a := range t.Args {
+			out = append(out, splitConj(c, a)...)
+		}
+		return out
+	}
+	if t.Op == "=>" && len(t.Args) == 2 {
+		inner := splitConj(c, t.Args[1])
+		if len(inner) > 1 {
+			var out []*smt.Term
+			for _, a := range inner {
+				out = append(out, c.Implies(t.Args[0], a))
+			}
+			return out
+		}
+	}
+	return []*smt.Term{t}
 }
